@@ -27,9 +27,9 @@ CHECKS={
  'C09':('runtime monitoring: generate twice into the same path (neutral vs hostile free text), parse every generated file with go/parser, erase comments and literal values, compare ASTs',
         'held on the executions observed: ~50 free-text positions x breakers (all positions at once, bisected) and injectors that stay valid Go when they escape a block comment, line comment, raw string or interpreted string; server, client, cli and models with description/example struct tags; minimal and full flatten. Identical erased ASTs required; a generation error is an accepted outcome.',
         'string-literal concatenations are folded (that is how backticks are escaped); equal erased ASTs + a compiling neutral rendering imply a compiling hostile rendering','C09'),
- 'C08':('runtime monitoring: generate server+client for colliding-name documents, then count artefacts and route a uniquely marked request to every (method, path) in the compiled server',
+ 'C08':('runtime monitoring: generate server+client for colliding-name documents, then count artefacts and route a uniquely marked request to every (method, path) in the compiled server; every generated file is put to go/build's file-selection rule (a file go build leaves out because of its name is a dropped handler or model)',
         'held on the executions observed: for each collision atom the outcome must be a generator error or a bijection operations <-> handler fields <-> client methods <-> bound markers and definitions <-> model types. Atoms where operations / definitions are silently dropped today are listed in known-findings.json.',
-        'a generation that exits 0 but does not compile is left to C01','C08'),
+        'a generation that exits 0 but does not compile is left to C01, except when a generated file is excluded from the build by its name (judged here)','C08'),
  'C10':('runtime monitoring: generated servers (JSON/YAML input, three flatten modes) dump restapi.SwaggerJSON, FlatSwaggerJSON and GET /swagger.json through the driver; JSON-equality and expanded-equality oracles against the input',
         'held on the executions observed: base document with every hostile string class in every free-text position, hand-written shapes, model and parameter atom batches and seeded composites; the embedded original and the served document must be JSON-equal to the input and the flattened one equal after $ref expansion.',
         'expansion by go-openapi/spec; x-go-* keys only on the flattened side ignored; circular documents not compared in expanded form','C10'),
